@@ -33,7 +33,8 @@ type Spec struct {
 	N      int    // rows per source shard
 	Shard  int    // shard (of the armed operator) in which the failure is placed
 	Target int    // row index (in the armed operator's input stream of that shard); == stream length for "at EOF"
-	Bit    uint   // for value-addressed sites: the bit that identifies the target row
+	Mask   int    // for value-addressed sites: the value bit(s) that identify the target row(s)
+	Both   bool   // layout "buffer": place the target row (index Target) in both shards
 	Msg    string // the user's message
 }
 
@@ -201,10 +202,15 @@ func layoutKeys(s *Spec) [nshard][]int {
 			}
 		}
 		t := s.Target
-		if t <= 4 {
-			out[s.Shard][5] = out[s.Shard][t]
-		} else {
-			out[s.Shard][t] = out[s.Shard][0]
+		for sh := 0; sh < nshard; sh++ {
+			if sh != s.Shard && !s.Both {
+				continue
+			}
+			if t <= 4 {
+				out[sh][5] = out[sh][t]
+			} else {
+				out[sh][t] = out[sh][0]
+			}
 		}
 	case "merge": // all distinct, except that the target row's key also occurs in the other shard
 		for sh := 0; sh < nshard; sh++ {
@@ -262,7 +268,7 @@ func build(s *Spec) bigslice.Slice {
 		return m, nil
 	})
 
-	valueAt := func(v int) bool { return v&(1<<s.Bit) != 0 }
+	valueAt := func(v int) bool { return v&s.Mask != 0 }
 
 	switch s.Site {
 	case "map", "none":
